@@ -78,15 +78,8 @@ pub fn gen_len(rng: &mut Rng) -> usize {
         // beyond the small sizes: across 64, 256 and (rarely) 1024
         7 => rng.range(49, 140),
         8 => match rng.below(6400) {
-            // beyond 2^20 bytes / 2^20 characters: about one text in 250 000, because every
-            // step on such a sentence costs a second
-            0 => {
-                if rng.chance(1, 2) {
-                    rng.range(360_000, 420_000)
-                } else {
-                    rng.range(1_050_000, 1_150_000)
-                }
-            }
+            // (sentences beyond 2^20 bytes have their own dedicated runs, see histsim `mega`)
+            0 => rng.range(66_000, 140_000),
             // beyond 2^16: rare, because every step on such a sentence costs milliseconds
             1..=10 => rng.range(66_000, 140_000),
             11..=410 => rng.range(3000, 10000),
